@@ -218,12 +218,14 @@ def run_assign(case):
               "__qualname__": name}
         if case.get("default") is not None:
             ns["x"] = build(case["default"], objs)
+            # the default as Python built it (a dict literal merges keys that are equal: {True: a, 1: b})
+            out["default_input"] = canon(ns["x"], objs)
         cls = type(name, (Config,), ns)
         setattr(dyn, name, cls)
         arg = cls.__getxpmtype__().arguments["x"]
         out.update(required=bool(arg.required), ty=type_ast(arg.type))
     except Exception as e:  # the class cannot be used at all
-        return dict(declared=False, exc=type(e).__name__)
+        return dict(declared=False, exc=type(e).__name__, **({"default_input": out["default_input"]} if "default_input" in out else {}))
     value = build(case["v"], objs)
     out["input"] = canon(value, objs)
     # what a parameter that was never assigned holds (TypeConfig.__init__: the declared default)
